@@ -345,24 +345,7 @@ class C09(Check):
             t['cfg']['solver'] = 'euler'
             return t
 
-        def conn_multi(trace, v):
-            if trace['spec'].get('kind') != 'pop' or v['law'] != 'L-delay':
-                return False
-            srcs = {}
-            for c_ in trace['spec']['conns']:
-                if c_['dsteps']:
-                    srcs.setdefault(c_['s'], []).append(c_['dsteps'])
-            return any(len(x) > 1 for x in srcs.values())
-
-        def ab_conn(t):
-            seen = set()
-            for c_ in t['spec']['conns']:
-                if c_['dsteps']:
-                    if c_['s'] in seen:
-                        c_['dsteps'] = None
-                    seen.add(c_['s'])
-            return t
-        return [KF('KF-C09-heun-double-roll', heun, ab_heun), KF('KF-C09-connectivity-two-delays', conn_multi, ab_conn)]
+        return [KF('KF-C09-heun-double-roll', heun, ab_heun)]
 
 
 CHECK = C09()
